@@ -269,3 +269,13 @@ def run_real(code, timeout=120):
     with open(p, 'w') as f:
         f.write(code)
     return run_replay(p, timeout)
+
+
+def replay_verdict(rc, out):
+    """True: the violation reproduced (exit 1 + a VIOLATED line); False: it did not (exit 0);
+    anything else (crash of the replay script itself) is a harness error."""
+    if rc == 0:
+        return False
+    if rc == 1 and 'VIOLATED' in out:
+        return True
+    raise HarnessError('replay script crashed (rc=%s):\n%s' % (rc, out[-2000:]))
